@@ -59,7 +59,7 @@ P = {
     }, {
         "name": "keycache", "pkg": "./internal/rules/mechanisms/authenticators", "test": "TestVerifC05Cache",
         "overlay": {"internal/rules/mechanisms/authenticators/zz_verif_c05_test.go": "c05/c05_test.go"},
-        "eval_module": "Run.Eval_C05", "check_term": "check_hist true true true false",
+        "eval_module": "Run.Eval_C05", "check_term": "check_hist true true true true",
         "n_quick": 500, "n_thorough": 12000, "findings": {1: "C05-F1", 2: "C05-F2", 3: "C05-F3", 4: "C05-F4", 5: "C05-F5", 6: "C05-F6"}, "shard": 150,
     }],
     "rule": "a jwt authenticator created by the real type registry from a generated configuration (issuers, audience, scopes "
